@@ -221,6 +221,9 @@ func (c *Ctx) e9ConstD(cfg string) {
 			if ptr == nil {
 				return nil, false
 			}
+			if fe, isF := ptr.Val.(*absint.FE); isF {
+				return d.IsConst(fe) // the variable is an Element value, not a pointer to one
+			}
 			pp, isP := ptr.Val.(absint.Ptr)
 			if !isP {
 				return nil, false
